@@ -145,6 +145,7 @@ func runChaosPropWith(r *Run, prop string, tune func(o *chaosOpts, g *Rng), got 
 		tune(&o, g)
 	}
 	r.Knobs["plan_size"] = o.Faults
+	r.Knobs["leader_hunt"] = o.LeaderHunt
 	c := newChaos(r, o)
 	defer c.finish()
 	if got != nil {
@@ -158,6 +159,9 @@ func runChaosPropWith(r *Run, prop string, tune func(o *chaosOpts, g *Rng), got 
 
 func runC01(r *Run) {
 	runChaosProp(r, "C01", func(o *chaosOpts, g *Rng) {
+		if hg := NewRng(r.Seed, "leader-hunt"); hg.Chance(20) {
+			o.LeaderHunt = hg.Range(1, 4)
+		}
 		o.WriteHeavy = true
 		o.Swap = g.Chance(35)
 	})
@@ -165,6 +169,9 @@ func runC01(r *Run) {
 
 func runC03(r *Run) {
 	runChaosProp(r, "C03", func(o *chaosOpts, g *Rng) {
+		if hg := NewRng(r.Seed, "leader-hunt"); hg.Chance(20) {
+			o.LeaderHunt = hg.Range(1, 4)
+		}
 		o.WriteHeavy = true
 		o.TriggerFence = g.Chance(50)
 		o.CoordCrash = g.Chance(30)
@@ -174,6 +181,9 @@ func runC03(r *Run) {
 
 func runC04(r *Run) {
 	runChaosProp(r, "C04", func(o *chaosOpts, g *Rng) {
+		if hg := NewRng(r.Seed, "leader-hunt"); hg.Chance(20) {
+			o.LeaderHunt = hg.Range(1, 4)
+		}
 		o.WriteHeavy = true
 		o.Yields = true
 		o.TriggerFence = true
@@ -187,6 +197,9 @@ func runC04(r *Run) {
 
 func runC05(r *Run) {
 	runChaosProp(r, "C05", func(o *chaosOpts, g *Rng) {
+		if hg := NewRng(r.Seed, "leader-hunt"); hg.Chance(20) {
+			o.LeaderHunt = hg.Range(1, 4)
+		}
 		o.OpsPerClient = g.Range(3, 12)
 		o.Faults = g.Range(3, 10)
 		o.CoordCrash = true
